@@ -231,12 +231,29 @@ def classify_rejection(events, res, default_prop):
     pd = next((x for x in reversed(events[:i]) if x["ev"] in ("exec", "upbegin", "upskip", "upsent", "updrop", "notify", "reset")), {"ev": "?"})
     if e["ev"] == "exec" and pd["ev"] == "upbegin":
         return ("C12" if default_prop == "C12" else "C11"), "stale-upgrade-applied", "upgrade applied although its password no longer authenticates / hash no longer upgradeable: " + d
+    start = max((j for j in range(i + 1) if events[j]["ev"] == "reset"), default=0)
     if e["ev"] == "upsent":
+        # the send belongs to a successful login with an upgradeable hash: if there is one in this run that has not had its
+        # send yet, the send was merely overtaken by another request's execution - requests were not executed one at a time
+        owed = 0
+        for x in events[start:i]:
+            if x["ev"] == "exec" and x["k"] == "auth" and x["ok"] and x["upg"] and x["u"] == e["u"] and x["p"] == e["p"]:
+                owed += 1
+            elif x["ev"] in ("upsent", "updrop") and x["u"] == e["u"] and x["p"] == e["p"]:
+                owed -= 1
+        if owed > 0 and not (pd["ev"] == "exec" and pd["k"] == "auth" and pd["u"] == e["u"] and pd["p"] == e["p"]):
+            return "C11", "overlapping-execution", "another request was executed between a login and its upgrade send: " + d
         return "C12", "upgrade-without-upgradeable-login", d
     if e["ev"] == "notify" or (e["ev"] in ("exec", "upbegin") and pd["ev"] == "exec" and pd["k"] in ("update", "add", "remove", "setadmin") and pd["ok"]):
+        if e["ev"] == "exec":
+            # was the notification skipped, or only overtaken by an execution that should not have been possible yet?
+            nxt = next((x for x in events[i + 1:] if x["ev"] in ("notify", "reset") or (x["ev"] == "exec" and x["k"] in ("update", "add", "remove", "setadmin") and x["ok"])), None)
+            if nxt is not None and nxt["ev"] == "notify":
+                return "C11", "overlapping-execution", "a request was executed while the dispatcher had not finished the previous one: " + d
         return "C19", "notify-mismatch", d
     if e["ev"] == "exec" and e["k"] == "auth":
-        return ("C12", "auth-upgradeable-flag", d) if e["ok"] else ("C11", "auth-response", d)
+        # (the response as a whole is what C11 speaks about; the flag by itself is C12's subject)
+        return (("C11" if default_prop == "C11" else "C12"), "auth-upgradeable-flag", d) if e["ok"] else ("C11", "auth-response", d)
     if e["ev"] == "exec":
         return "C11", "exec-%s-response" % e["k"], d
     if e["ev"] == "ret":
